@@ -60,6 +60,40 @@ theorem mem_causeHandlers (hs : List (Handler V)) (c : Cause V) (resumed : List 
   intro _
   cases h.kind.initial <;> simp
 
+/-- THE WHOLE CYCLE, change handlers, soundness (unguarded; every variant, object state, event type): a
+    handler id the cycle passes to the handling belongs to a registered handler that passes the cause-kind
+    gate and ALL of `match`, for a cause that has handlers, and is not a resuming handler finished here -/
+theorem cycle_handle_sound (v : Repairs) (r : Registry V) (cs : Causes V) (o : Obj) (stopped : List String)
+    (is : List String) (hh : Effect.handle is ∈ cycleAt v r cs o stopped) (i : String) (hi : i ∈ is) :
+    C05.handlerReasons.contains cs.changing.kind.reason = true ∧
+    ∃ h ∈ r.changing, h.id = i ∧ gate h cs.changing = true ∧ matchHandler h cs.changing = true ∧
+      ¬(h.kind.initial = true ∧ h.id ∈ o.resumed) := by
+  have hx := cycle_handle_exact v r cs o stopped is hh
+  cases hr : C05.handlerReasons.contains cs.changing.kind.reason with
+  | false =>
+    rw [hx, hr] at hi
+    simp at hi
+  | true =>
+    rw [hx, hr] at hi
+    simp only [if_true, ids, List.mem_map] at hi
+    obtain ⟨h, hm, rfl⟩ := hi
+    obtain ⟨hg, hk⟩ := (mem_causeHandlers _ _ _ h).1 hm
+    obtain ⟨h1, _, h3, h4⟩ := (selected_sound r.changing cs.changing [] h).1 hg
+    exact ⟨rfl, h, h1, rfl, h3, h4, hk⟩
+
+/-- … and completeness, in a process in which no resuming handler has finished for the object yet: every
+    registered handler that passes the gate and `match` has its id passed to the handling -/
+theorem cycle_handle_complete (v : Repairs) (r : Registry V) (cs : Causes V) (o : Obj) (stopped : List String)
+    (is : List String) (hh : Effect.handle is ∈ cycleAt v r cs o stopped) (hres : o.resumed = [])
+    (hr : C05.handlerReasons.contains cs.changing.kind.reason = true)
+    (h : Handler V) (hm : h ∈ r.changing) (hg : gate h cs.changing = true) (hmt : matchHandler h cs.changing = true) :
+    h.id ∈ is := by
+  rw [cycle_handle_exact v r cs o stopped is hh]
+  simp only [hr, if_true, ids, List.mem_map]
+  obtain ⟨h', hm', hk⟩ := ((selected_iff r.changing cs.changing [] h.key).1).2 ⟨h, hm, rfl, by simp, hg, hmt⟩
+  refine ⟨h', (mem_causeHandlers _ _ _ h').2 ⟨hm', by simp [hres]⟩, ?_⟩
+  simpa [Handler.key] using congrArg Prod.snd hk
+
 /-- C02's side condition, from the C15 model: what a cause selects is owned by the resource
     (a lemma, not a property statement) -/
 theorem selected_sub_owned (hs : List (Handler V)) (c : Cause V) (limits : C02.Id → C02.Limits)
@@ -97,7 +131,7 @@ theorem invoked_sound (hs : List (Handler V)) (c : Cause V) (limits : C02.Id →
 
 /-- … hence its documented criteria hold — under the guards of `match_eq_doc_partial` (findings
     C15-F1/F2) for every registered handler -/
-theorem invoked_doc_partial (hs : List (Handler V)) (c : Cause V) (limits : C02.Id → C02.Limits)
+theorem invoked_doc_partial [PyLaw V] (hs : List (Handler V)) (c : Cause V) (limits : C02.Id → C02.Limits)
     (lc : C02.Lifecycle) (resumed : List String) (P : C02.Store) (now now1 : C02.Tick)
     (exec : C02.Id → Nat → C02.Outcome) (i : C02.Id) (n : Nat)
     (hguards : ∀ h ∈ hs, TokenFree h c ∧ OldOnlyFree h c)
